@@ -37,6 +37,7 @@ type WSConnPlan struct {
 	HandlerYields int `json:"handler_yields,omitempty"`
 	End      string `json:"end,omitempty"`     // "" client sends close frame at the end | reset | appclose (server closes) | none
 	Piece    int   `json:"piece"`
+	PanicAt  int   `json:"panic_at,omitempty"` // k > 0: the message callback of the k-th message panics when it is done
 }
 
 // WSCase is a case of C14.
@@ -85,6 +86,9 @@ func genWSCase(r *simrt.Rand, tier string) *WSCase {
 			p.Writers = append(p.Writers, ws)
 		}
 		p.End = r.PickS("", "", "reset", "appclose", "none")
+		if len(p.Msgs) > 0 && r.Bool(0.1) {
+			p.PanicAt = 1 + r.Intn(len(p.Msgs))
+		}
 		if c.TLS && p.Piece < 7 {
 			p.Piece = 7 // one TLS record per piece
 		}
@@ -131,6 +135,11 @@ func shrinkWS(ci interface{}) []interface{} {
 		if cn.End != "none" {
 			x := cp()
 			x.Conns[i].End = "none"
+			out = append(out, x)
+		}
+		if cn.PanicAt != 0 {
+			x := cp()
+			x.Conns[i].PanicAt = 0
 			out = append(out, x)
 		}
 		if cn.Frag != 0 || cn.HandlerYields != 0 || cn.Piece != 100000 {
@@ -301,6 +310,10 @@ func runWSCase(t *testing.T, c *WSCase, trace bool) *common.Outcome {
 			}
 			cs.inCB--
 			cs.events = append(cs.events, fmt.Sprintf("msg-end %d", k))
+			if cs.plan.PanicAt == k+1 {
+				// a handler that panics must not take the rest of the connection's callbacks with it
+				panic("injected panic in a message callback")
+			}
 		})
 		u.OnClose(func(wc *websocket.Conn, err error) {
 			cs := byWSC[wc]
